@@ -39,6 +39,51 @@ Proof.
   fold hw. unfold must_recode. rewrite Hlong. change (has_8bit hw) with (existsb is8 hw). rewrite H7. now rewrite Bool.andb_false_r.
 Qed.
 
+(** what a piece has written, for the content: [X] unfolds to the plain rendering of its window, [c] being
+    the CRLF that is still missing when the window does not end with a line end *)
+Definition cont (win : bytes) (st0 st' : St) (t : bytes) : Prop :=
+  exists X c, outof st' = outof st0 ++ X /\ (c = [] \/ c = CRLF) /\ (c = [] <-> t = []) /\
+              unfolds_to (X ++ c) (stuff (split_lines win)) = true.
+
+Lemma hdr_piece_c ext8 m bh n D0 st : bh + n <= length m ->
+  existsb is8 (sub m bh n) = false -> noempty (sub m bh n) -> good ext8 D0 st [] ->
+  exists st' t, wrap_header m bh n st = Ok st' /\ good ext8 D0 st' t /\ (open_line false (sub m bh n) = false -> t = []) /\
+                cont (sub m bh n) st st' t.
+Proof.
+  intros Hw H7 Hne Hg.
+  destruct (wrap_header_spec m bh n Hw ext8 H7 (outof st) st Hne eq_refl) as (st' & X & t & c & E & HR).
+  destruct HR as (Ho & Hwt & Hlt & Hc & Hct & Hopen & _ & Hunf & Hz & Hnz).
+  exists st', t. split; [exact E|]. split; [|split].
+  - apply (good_step ext8 D0 st st' X t); auto. intros Hl.
+    destruct (Nat.eq_dec n 0) as [H0|Hn0].
+    + apply Hct. apply Hopen.
+      assert (Hnil : sub m bh n = []) by (apply length_zero_iff_nil; rewrite sub_length by lia; exact H0).
+      rewrite Hnil. reflexivity.
+    + apply Hnz; [lia|exact Hl].
+  - intros Eo. apply Hct. apply Hopen. exact Eo.
+  - exists X, c. auto.
+Qed.
+
+Lemma hdr_piece_short_c ext8 m bh n D0 st : bh + n <= length m ->
+  existsb is8 (sub m bh n) = false -> has_long_line (sub m bh n) = false -> open_line false (sub m bh n) = false ->
+  good ext8 D0 st [] ->
+  exists st', wrap_header m bh n st = Ok st' /\ good ext8 D0 st' [] /\ cont (sub m bh n) st st' [].
+Proof.
+  intros Hw H7 Hlong Hop Hg.
+  destruct (hdr_piece_short ext8 m bh n D0 st Hw H7 Hlong Hg) as (st' & t & E & G & Ht).
+  specialize (Ht Hop). subst t. exists st'. split; [exact E|]. split; [exact G|].
+  (* the same call, seen through send_plain *)
+  unfold wrap_header in E. rewrite (need_recode_ok m bh n Hw) in E. cbn [bind] in E.
+  set (hw := sub m bh n) in *.
+  destruct (nr_fun_facts hw flags0 0 false) as [_ Hl]. cbv zeta in Hl.
+  unfold flong in Hl. cbn [fline fhdr flags0 orb] in Hl. rewrite longrun_has_long, Hlong in Hl.
+  apply Bool.orb_false_elim in Hl as [_ Hh]. rewrite Hh in E. cbn [negb] in E.
+  destruct (send_plain_ok m bh n Hw st) as (st2 & E2 & Ho & _). rewrite E in E2. inversion E2; subst st2.
+  exists (plain_enc false hw), []. split; [exact Ho|]. split; [left; reflexivity|]. split; [tauto|].
+  pose proof (plain_enc_spec hw false) as Hs. fold hw in Hop. rewrite Hop in Hs. unfold rendering in Hs.
+  rewrite Hs. apply unfolds_refl.
+Qed.
+
 (** where the header ends if it ends inside the data: right behind a line end *)
 Lemma hpos_ends_eol : forall l a, 0 < hpos a l -> hpos a l < length l -> ends_eol (firstn (hpos a l) l) = true.
 Proof.
@@ -148,8 +193,23 @@ Proof. apply sub_length. exact Hw. Qed.
 Let w_at j : j < len -> at_ m (b + j) = nth j w 0%N.
 Proof. intros H. unfold w, at_. now rewrite nth_sub. Qed.
 
+(** the two lines recodeheader() writes *)
+Definition MK : bytes := RECODED_STR ++ helo ++ CRLF.
+
+(** the header as it was written when the entity is no multipart: the part in front of the recorded
+    Content-Transfer-Encoding field [cenc], the lines of recodeheader() if the body is recoded, the part behind
+    the field; without recoding of the body (or without such a field) the whole header is the second part *)
+Definition hdr_cont (st st' : St) (h : nat) (cenc : nat * nat) (br : bool) (t : bytes) : Prop :=
+  let cut := br && negb (Nat.eqb (snd cenc) 0) in
+  let s := if cut then fst cenc else 0 in
+  let e := if cut then fst cenc + snd cenc else 0 in
+  exists X1 X2 c, outof st' = outof st ++ X1 ++ (if br then MK else []) ++ X2 /\
+    (c = [] \/ c = CRLF) /\ (c = [] <-> t = []) /\
+    unfolds_to X1 (stuff (split_lines (sub m b s))) = true /\
+    unfolds_to (X2 ++ c) (stuff (split_lines (sub m (b + e) (h - e)))) = true.
+
 (** what qp_header hands on when it does not give up *)
-Definition hdr_done (st : St) (r : Run (nat * MpRes)) : Prop :=
+Definition hdr_done (br : bool) (st : St) (r : Run (nat * MpRes)) : Prop :=
   match r with
   | Die _ st' => st' = st
   | Done (h, mp) st' =>
@@ -158,19 +218,21 @@ Definition hdr_done (st : St) (r : Run (nat * MpRes)) : Prop :=
       (forall bs bl, mp = MpYes bs bl -> 1 <= bl <= BOUNDARY_MAX /\ bs + bl <= length m) /\
       existsb is8 (sub m b h) = false /\
       longrun 0 (skipn h w) = longrun 0 (skipn (hpos 0 w) w) /\
-      exists t, good ext8 D0 st' t /\ (h < len \/ ends_eol w = true -> t = [])
+      exists t, good ext8 D0 st' t /\ (h < len \/ ends_eol w = true -> t = []) /\
+                (mp = MpNo -> exists cenc, hdr_cont st st' h cenc br t)
   end.
 
 (** the part of qp_header behind is_multipart(), given how the pieces of the header window behave *)
 Lemma hdr_match (C : Prop) (h : nat) (mp : MpRes) (cenc : nat * nat) (body_recode : bool) (st : St) :
   good ext8 D0 st [] ->
   (forall st0, good ext8 D0 st0 [] ->
-     exists st' t, wrap_header m b h st0 = Ok st' /\ good ext8 D0 st' t /\ (C -> t = [])) ->
+     exists st' t, wrap_header m b h st0 = Ok st' /\ good ext8 D0 st' t /\ (C -> t = []) /\ cont (sub m b h) st0 st' t) ->
   (snd cenc <> 0 -> forall st0, good ext8 D0 st0 [] ->
-     exists st', wrap_header m b (fst cenc) st0 = Ok st' /\ good ext8 D0 st' []) ->
+     exists st', wrap_header m b (fst cenc) st0 = Ok st' /\ good ext8 D0 st' [] /\ cont (sub m b (fst cenc)) st0 st' []) ->
   (snd cenc <> 0 -> fst cenc + snd cenc <= h -> forall st0, good ext8 D0 st0 [] ->
      exists st' t, wrap_header m (b + (fst cenc + snd cenc)) (h - (fst cenc + snd cenc)) st0 = Ok st' /\
-                   good ext8 D0 st' t /\ (C -> t = [])) ->
+                   good ext8 D0 st' t /\ (C -> t = []) /\
+                   cont (sub m (b + (fst cenc + snd cenc)) (h - (fst cenc + snd cenc))) st0 st' t) ->
   exists r,
     (match mp with
      | MpDie w0 => Ok (Die w0 st)
@@ -195,40 +257,64 @@ Lemma hdr_match (C : Prop) (h : nat) (mp : MpRes) (cenc : nat * nat) (body_recod
      end) = Ok r /\
     match r with
     | Die _ st' => st' = st
-    | Done (h', mp') st' => h' = h /\ mp' = mp /\ exists t, good ext8 D0 st' t /\ (C -> t = [])
+    | Done (h', mp') st' => h' = h /\ mp' = mp /\ exists t, good ext8 D0 st' t /\ (C -> t = []) /\
+                            (mp = MpNo -> hdr_cont st st' h cenc body_recode t)
     end.
 Proof.
   intros Hg PW P1 P2.
   assert (Hrh : forall st0, good ext8 D0 st0 [] -> good ext8 D0 (recodeheader helo st0) []).
   { intros st0 H0. unfold recodeheader. apply good_lit; [exact H0|]. apply recoded_legal. exact Hhelo. }
-  (* the two pieces around the Content-Transfer-Encoding field, with [mid] done in between *)
-  assert (Split : forall (mid : St -> St), (forall s, good ext8 D0 s [] -> good ext8 D0 (mid s) []) -> snd cenc <> 0 ->
+  assert (Hnil : stuff (split_lines []) = []) by reflexivity.
+  (* the two pieces around the Content-Transfer-Encoding field, with [mid] written in between *)
+  assert (Split : forall (mid : St -> St) (M : bytes), (forall s, good ext8 D0 s [] -> good ext8 D0 (mid s) []) ->
+            (forall s, outof (mid s) = outof s ++ M) -> snd cenc <> 0 ->
             exists st3 t,
               (do st1 <- wrap_header m b (fst cenc) st;
                do st3 <- (if Nat.ltb h (fst cenc + snd cenc) then Ok (mid st1)
                           else wrap_header m (b + (fst cenc + snd cenc)) (h - (fst cenc + snd cenc)) (mid st1));
-               Ok (Done (h, mp) st3)) = Ok (Done (h, mp) st3) /\ good ext8 D0 st3 t /\ (C -> t = [])).
-  { intros mid Hmid Hn. destruct (P1 Hn st Hg) as (st1 & E1 & G1). rewrite E1. cbn [bind].
+               Ok (Done (h, mp) st3)) = Ok (Done (h, mp) st3) /\ good ext8 D0 st3 t /\ (C -> t = []) /\
+              exists X1 X2 c, outof st3 = outof st ++ X1 ++ M ++ X2 /\ (c = [] \/ c = CRLF) /\ (c = [] <-> t = []) /\
+                unfolds_to X1 (stuff (split_lines (sub m b (fst cenc)))) = true /\
+                unfolds_to (X2 ++ c) (stuff (split_lines (sub m (b + (fst cenc + snd cenc)) (h - (fst cenc + snd cenc))))) = true).
+  { intros mid M Hmid Hout Hn. destruct (P1 Hn st Hg) as (st1 & E1 & G1 & (X1 & c1 & O1 & _ & I1 & U1)). rewrite E1. cbn [bind].
+    assert (Ec1 : c1 = []) by (apply I1; reflexivity). subst c1. rewrite app_nil_r in U1.
     destruct (Nat.ltb_spec h (fst cenc + snd cenc)) as [Hlt|Hge].
-    - cbn [bind]. exists (mid st1), []. split; [reflexivity|]. split; [apply Hmid; exact G1|auto].
-    - destruct (P2 Hn Hge (mid st1) (Hmid _ G1)) as (st3 & t & E3 & G3 & Ht). rewrite E3. cbn [bind].
-      exists st3, t. auto. }
-  assert (Whole : forall st0, good ext8 D0 st0 [] ->
+    - cbn [bind]. exists (mid st1), []. split; [reflexivity|]. split; [apply Hmid; exact G1|]. split; [auto|].
+      exists X1, [], []. split; [rewrite Hout, O1, app_nil_r, <- app_assoc; reflexivity|]. split; [auto|]. split; [tauto|].
+      split; [exact U1|]. replace (h - (fst cenc + snd cenc)) with 0 by lia. rewrite sub_0. reflexivity.
+    - destruct (P2 Hn Hge (mid st1) (Hmid _ G1)) as (st3 & t & E3 & G3 & Ht & (X2 & c & O3 & Hc & I3 & U3)). rewrite E3. cbn [bind].
+      exists st3, t. split; [reflexivity|]. split; [exact G3|]. split; [exact Ht|].
+      exists X1, X2, c. split; [rewrite O3, Hout, O1, <- !app_assoc; reflexivity|]. auto. }
+  assert (Whole : forall st0 (M : bytes), good ext8 D0 st0 [] -> outof st0 = outof st ++ M ->
             exists st1 t, (do st1 <- wrap_header m b h st0; Ok (Done (h, mp) st1)) = Ok (Done (h, mp) st1) /\
-                          good ext8 D0 st1 t /\ (C -> t = [])).
-  { intros st0 H0. destruct (PW st0 H0) as (st1 & t & E1 & G1 & Ht). rewrite E1. cbn [bind]. exists st1, t. auto. }
+                          good ext8 D0 st1 t /\ (C -> t = []) /\
+              exists X2 c, outof st1 = outof st ++ [] ++ M ++ X2 /\ (c = [] \/ c = CRLF) /\ (c = [] <-> t = []) /\
+                unfolds_to [] (stuff (split_lines (sub m b 0))) = true /\
+                unfolds_to (X2 ++ c) (stuff (split_lines (sub m (b + 0) (h - 0)))) = true).
+  { intros st0 M H0 HM. destruct (PW st0 H0) as (st1 & t & E1 & G1 & Ht & (X & c & O & Hc & I & U)). rewrite E1. cbn [bind].
+    exists st1, t. split; [reflexivity|]. split; [exact G1|]. split; [exact Ht|].
+    exists X, c. split; [rewrite O, HM, <- app_assoc; reflexivity|]. split; [exact Hc|]. split; [exact I|].
+    split; [rewrite sub_0; reflexivity|]. rewrite Nat.add_0_r, Nat.sub_0_r. exact U. }
   destruct mp as [bs bl| | |w0].
   - destruct (Nat.eqb_spec (snd cenc) 0) as [Hz|Hnz]; cbn [negb].
-    + destruct (Whole st Hg) as (st1 & t & E & G & Ht). rewrite E. eexists. split; [reflexivity|]. cbn. eauto.
-    + destruct (Split (fun s => s) (fun s H => H) Hnz) as (st3 & t & E & G & Ht). rewrite E.
-      eexists. split; [reflexivity|]. cbn. eauto.
-  - destruct (negb body_recode).
-    + destruct (Whole st Hg) as (st1 & t & E & G & Ht). rewrite E. eexists. split; [reflexivity|]. cbn. eauto.
+    + destruct (Whole st [] Hg ltac:(now rewrite app_nil_r)) as (st1 & t & E & G & Ht & _). rewrite E.
+      eexists. split; [reflexivity|]. cbn. split; [reflexivity|]. split; [reflexivity|]. exists t. split; [exact G|]. split; [exact Ht|discriminate].
+    + destruct (Split (fun s => s) [] (fun s H => H) ltac:(intros; now rewrite app_nil_r) Hnz) as (st3 & t & E & G & Ht & _). rewrite E.
+      eexists. split; [reflexivity|]. cbn. split; [reflexivity|]. split; [reflexivity|]. exists t. split; [exact G|]. split; [exact Ht|discriminate].
+  - destruct body_recode; cbn [negb].
     + destruct (Nat.eqb_spec (snd cenc) 0) as [Hz|Hnz]; cbn [negb].
-      * destruct (Whole (recodeheader helo st) (Hrh st Hg)) as (st1 & t & E & G & Ht). rewrite E.
-        eexists. split; [reflexivity|]. cbn. eauto.
-      * destruct (Split (recodeheader helo) Hrh Hnz) as (st3 & t & E & G & Ht). cbv zeta. rewrite E.
-        eexists. split; [reflexivity|]. cbn. eauto.
+      * destruct (Whole (recodeheader helo st) MK (Hrh st Hg) ltac:(apply outof_wr)) as (st1 & t & E & G & Ht & (X2 & c & O & Hc & I & U1 & U2)).
+        rewrite E. eexists. split; [reflexivity|]. cbn beta iota. split; [reflexivity|]. split; [reflexivity|].
+        exists t. split; [exact G|]. split; [exact Ht|]. intros _. unfold hdr_cont. apply Nat.eqb_eq in Hz. rewrite Hz. cbn [andb negb].
+        exists [], X2, c. auto.
+      * destruct (Split (recodeheader helo) MK Hrh ltac:(intros; apply outof_wr) Hnz) as (st3 & t & E & G & Ht & (X1 & X2 & c & O & Hc & I & U1 & U2)).
+        cbv zeta. rewrite E. eexists. split; [reflexivity|]. cbn beta iota. split; [reflexivity|]. split; [reflexivity|].
+        exists t. split; [exact G|]. split; [exact Ht|]. intros _. unfold hdr_cont. apply Nat.eqb_neq in Hnz. rewrite Hnz. cbn [andb negb].
+        exists X1, X2, c. auto.
+    + destruct (Whole st [] Hg ltac:(now rewrite app_nil_r)) as (st1 & t & E & G & Ht & (X2 & c & O & Hc & I & U1 & U2)). rewrite E.
+      eexists. split; [reflexivity|]. cbn beta iota. split; [reflexivity|]. split; [reflexivity|].
+      exists t. split; [exact G|]. split; [exact Ht|]. intros _. unfold hdr_cont. cbn [andb].
+      exists [], X2, c. auto.
   - eexists. split; [reflexivity|reflexivity].
   - eexists. split; [reflexivity|reflexivity].
 Qed.
@@ -266,13 +352,15 @@ Lemma hdr_tail (h : nat) (ct cenc : nat * nat) (body_recode : bool) (st : St) :
   longrun 0 (skipn h w) = longrun 0 (skipn (hpos 0 w) w) ->
   (existsb is8 (sub m b h) = false ->
    (forall st0, good ext8 D0 st0 [] ->
-      exists st' t, wrap_header m b h st0 = Ok st' /\ good ext8 D0 st' t /\ (h < len \/ ends_eol w = true -> t = [])) /\
+      exists st' t, wrap_header m b h st0 = Ok st' /\ good ext8 D0 st' t /\ (h < len \/ ends_eol w = true -> t = []) /\
+                    cont (sub m b h) st0 st' t) /\
    (snd cenc <> 0 -> forall st0, good ext8 D0 st0 [] ->
-      exists st', wrap_header m b (fst cenc) st0 = Ok st' /\ good ext8 D0 st' []) /\
+      exists st', wrap_header m b (fst cenc) st0 = Ok st' /\ good ext8 D0 st' [] /\ cont (sub m b (fst cenc)) st0 st' []) /\
    (snd cenc <> 0 -> fst cenc + snd cenc <= h -> forall st0, good ext8 D0 st0 [] ->
       exists st' t, wrap_header m (b + (fst cenc + snd cenc)) (h - (fst cenc + snd cenc)) st0 = Ok st' /\
-                    good ext8 D0 st' t /\ (h < len \/ ends_eol w = true -> t = []))) ->
-  exists r, hdr_rest h ct cenc body_recode st = Ok r /\ hdr_done st r.
+                    good ext8 D0 st' t /\ (h < len \/ ends_eol w = true -> t = []) /\
+                    cont (sub m (b + (fst cenc + snd cenc)) (h - (fst cenc + snd cenc))) st0 st' t)) ->
+  exists r, hdr_rest h ct cenc body_recode st = Ok r /\ hdr_done body_recode st r.
 Proof.
   intros Hg Hh Hct Hlr Pieces. unfold hdr_rest.
   rewrite (need_recode_ok m b h) by lia. cbn [bind].
@@ -285,10 +373,11 @@ Proof.
   rewrite Emp. cbn [bind].
   destruct (hdr_match (h < len \/ ends_eol w = true) h mp cenc body_recode st Hg PW P1 P2) as (r & Er & Hr).
   exists r. split; [exact Er|]. destruct r as [[h' mp'] st'|why st']; [|exact Hr].
-  destruct Hr as (-> & -> & t & Gt & Ht). unfold hdr_done. split; [exact Hh|]. split; [eauto|]. split.
+  destruct Hr as (-> & -> & t & Gt & Ht & Hcont). unfold hdr_done. split; [exact Hh|]. split; [eauto|]. split.
   - intros bs bl ->. destruct (Hmp bs bl eq_refl) as (Hbl & Hbs & Hbe). split; [exact Hbl|].
     destruct Hct as [Hz|(_ & B & _)]; [rewrite Hz in Hbe; lia|lia].
-  - split; [exact H8|]. split; [exact Hlr|]. exists t. split; assumption.
+  - split; [exact H8|]. split; [exact Hlr|]. exists t. split; [exact Gt|]. split; [exact Ht|].
+    intros Emp'. exists cenc. apply Hcont. exact Emp'.
 Qed.
 
 Lemma qp_header_eq body_recode st :
@@ -321,17 +410,17 @@ Proof. intros H. destruct l; [discriminate|]. unfold open_line. now rewrite H. Q
 Lemma hdr_eol_case (c0 : N) (r : bytes) (h : nat) body_recode st :
   good ext8 D0 st [] -> w = c0 :: r -> is_eol c0 = true -> 1 <= h <= 2 -> h <= len ->
   skipn h w = after_eol c0 r -> ends_eol (firstn h w) = true ->
-  exists res, hdr_rest h (0, 0) (0, 0) body_recode st = Ok res /\ hdr_done st res.
+  exists res, hdr_rest h (0, 0) (0, 0) body_recode st = Ok res /\ hdr_done body_recode st res.
 Proof.
   intros Hg Ew He Hh Hhl Hsk Hends. apply hdr_tail; [exact Hg|lia|left; reflexivity| |].
   - rewrite Hsk. rewrite Ew. rewrite (hpos_eol_z c0 r He). cbn [skipn]. rewrite longrun_cons, He.
     replace (Nat.ltb MAXLINE 0) with false by (symmetry; apply Nat.ltb_ge; lia). reflexivity.
   - intros H8. split; [|split; intros Hn; cbn in Hn; contradiction].
-    intros st0 G0. destruct (hdr_piece_short ext8 m b h D0 st0) as (st' & t & E & G & Ht); [lia|exact H8| |exact G0|].
+    intros st0 G0. destruct (hdr_piece_short_c ext8 m b h D0 st0) as (st' & E & G & Hc); [lia|exact H8| | |exact G0|].
     + rewrite <- longrun_has_long. apply longrun_short. rewrite sub_length by lia.
       apply Nat.le_trans with 2; [lia|]. apply Nat.leb_le. reflexivity.
-    + exists st', t. split; [exact E|]. split; [exact G|]. intros _. apply Ht. rewrite sub_prefix by lia.
-      apply open_line_ends. exact Hends.
+    + rewrite sub_prefix by lia. apply open_line_ends. exact Hends.
+    + exists st', []. split; [exact E|]. split; [exact G|]. split; [reflexivity|exact Hc].
 Qed.
 
 (** the header found by the scan *)
@@ -339,7 +428,7 @@ Lemma hdr_scan_case (hd o' : nat) (ct' ce' : nat * nat) body_recode st :
   good ext8 D0 st [] -> is_eol (nth 0 w 0%N) = false ->
   scan_post m b len hd -> fld_inv2 m b len ct' -> fld_inv2 m b len ce' ->
   (hd <> 0 -> fle hd ce') ->
-  exists res, hdr_rest (if Nat.eqb hd 0 then len else hd) ct' ce' body_recode st = Ok res /\ hdr_done st res.
+  exists res, hdr_rest (if Nat.eqb hd 0 then len else hd) ct' ce' body_recode st = Ok res /\ hdr_done body_recode st res.
 Proof.
   intros Hg Hc0 Hpost Fct Fce Hmono.
   set (h := if Nat.eqb hd 0 then len else hd).
@@ -362,10 +451,10 @@ Proof.
       + unfold hw. rewrite firstn_all2 by (rewrite w_len; lia). exact Hee.
       + unfold hw. rewrite HhP. apply hpos_ends_eol; apply Hin; lia. }
   split; [|split].
-  - intros st0 G0. destruct (hdr_piece ext8 m b h D0 st0) as (st' & t & E & G & Ht); [lia| | |exact G0|].
+  - intros st0 G0. destruct (hdr_piece_c ext8 m b h D0 st0) as (st' & t & E & G & Ht & Hc); [lia| | |exact G0|].
     + rewrite sub_prefix by lia. exact H8.
     + rewrite sub_prefix by lia. exact Hne.
-    + exists st', t. split; [exact E|]. split; [exact G|]. intros Hlt. apply Ht. rewrite sub_prefix by lia.
+    + exists st', t. split; [exact E|]. split; [exact G|]. split; [|exact Hc]. intros Hlt. apply Ht. rewrite sub_prefix by lia.
       apply open_line_ends. apply Hends. exact Hlt.
   - intros Hn st0 G0. destruct Fce as (Finv & F2). destruct (F2 Hn) as (Hls & _).
     destruct Finv as [Hz0|(_ & Hel & _)]; [contradiction|].
@@ -373,16 +462,17 @@ Proof.
     { unfold h. destruct (Nat.eqb_spec hd 0) as [E|E]; [lia|]. apply (Hmono E). exact Hn. }
     assert (Epre : sub m b (fst ce') = firstn (fst ce') hw).
     { rewrite sub_prefix by lia. unfold hw. rewrite firstn_firstn. f_equal. lia. }
-    destruct (hdr_piece ext8 m b (fst ce') D0 st0) as (st' & t & E & G & Ht); [lia| | |exact G0|].
+    destruct (hdr_piece_c ext8 m b (fst ce') D0 st0) as (st' & t & E & G & Ht & Hc); [lia| | |exact G0|].
     + rewrite Epre. apply existsb_firstn. exact H8.
     + rewrite Epre. apply noempty_prefix. exact Hne.
-    + exists st'. split; [exact E|]. rewrite <- Ht; [exact G|]. rewrite sub_prefix by lia.
-      apply open_line_firstn; [rewrite w_len; lia|exact Hls].
+    + assert (Et : t = []).
+      { apply Ht. rewrite sub_prefix by lia. apply open_line_firstn; [rewrite w_len; lia|exact Hls]. }
+      subst t. exists st'. split; [exact E|]. split; [exact G|exact Hc].
   - intros Hn Hle st0 G0. destruct Fce as (Finv & F2). destruct (F2 Hn) as (_ & Hnsp).
     destruct Finv as [Hz0|(Hct & Hel & _ & _ & Hfe)]; [contradiction|].
     set (e := fst ce' + snd ce') in *.
     assert (Esuf : sub m (b + e) (h - e) = skipn e hw) by (apply sub_suffix; lia).
-    destruct (hdr_piece ext8 m (b + e) (h - e) D0 st0) as (st' & t & E & G & Ht); [lia| | |exact G0|].
+    destruct (hdr_piece_c ext8 m (b + e) (h - e) D0 st0) as (st' & t & E & G & Ht & Hc); [lia| | |exact G0|].
     + rewrite Esuf. apply existsb_skipn. exact H8.
     + rewrite Esuf. unfold noempty. rewrite (hpos_full_suffix hw 0 Hne e).
       * now rewrite skipn_length.
@@ -391,7 +481,7 @@ Proof.
         replace (b + (e - 1)) with (b + fst ce' + snd ce' - 1) by (unfold e; lia). exact Hfe.
       * rewrite Hhwl. intros Hcr Hlt. unfold hw in *. rewrite nth_firstn' in Hcr by lia. rewrite nth_firstn' by lia.
         apply Hnsp; [exact Hcr|lia].
-    + exists st', t. split; [exact E|]. split; [exact G|]. intros Hlt. apply Ht. rewrite Esuf.
+    + exists st', t. split; [exact E|]. split; [exact G|]. split; [|exact Hc]. intros Hlt. apply Ht. rewrite Esuf.
       destruct (Nat.eq_dec e h) as [Eeh|Neh].
       * rewrite skipn_all2 by lia. reflexivity.
       * apply open_line_ends. specialize (Hends Hlt). rewrite <- (firstn_skipn e hw) in Hends.
@@ -401,7 +491,7 @@ Qed.
 
 (** qp_header: gives up without output, or has written the header as complete legal lines *)
 Lemma qp_header_spec body_recode st : good ext8 D0 st [] ->
-  exists res, qp_header m helo b len body_recode st = Ok res /\ hdr_done st res.
+  exists res, qp_header m helo b len body_recode st = Ok res /\ hdr_done body_recode st res.
 Proof.
   intros Hg. rewrite qp_header_eq.
   assert (Hr0 : rd m b = Ok (nth 0 w 0%N)).
@@ -504,7 +594,7 @@ Proof.
   destruct (qp_header_spec (f8 rf || fline rf) st Hg) as (res & E & Hd). rewrite E.
   destruct res as [[h mp] st1|why st1]; cbn [bindR].
   2: { eexists. split; [reflexivity|]. exact Hd. }
-  destruct Hd as (Hh & (ls & ll & Emp) & _ & H8 & Hlr & t & Gt & Ht).
+  destruct Hd as (Hh & (ls & ll & Emp) & _ & H8 & Hlr & t & Gt & Ht & Hcont).
   destruct (Nat.ltb_spec len h) as [Hbad|_]; [lia|].
   assert (Body : exists res,
             (if f8 rf || fline rf then liftS (recode_qp m (b + h) (len - h) st1)
